@@ -37,7 +37,8 @@ ASSUMPTIONS = [
     "all probes total, dictionaries never contain the LABREA.* switches (those are C16)",
     "'options it depends on' is over-approximated by the syntactic may-read set, so a hit is never demanded that the property does not promise",
 ]
-FLOORS = {"repeat_probes": (1500, 30000), "bound_checks": (800, 15000), "effect_sequences_checked": (150, 3000), "histories_needing_hits": (150, 3000)}
+FLOORS = {"repeat_probes": (1500, 30000), "bound_checks": (800, 15000), "effect_sequences_checked": (150, 3000), "histories_needing_hits": (150, 3000),
+          "attach_family_evaluations": (1500, 30000), "attach_family_body_runs": (700, 14000), "attach_family_same_effect_attached_twice": (150, 3000)}
 SHARDS_QUICK = 4
 FEATURES = {"allopts": True, "preset_templates": False, "domains": False}
 
@@ -231,8 +232,110 @@ def plain_history(rng, length, keys):
     return U.history(rng, length, keys, templated=0.05, closed_only=True)
 
 
+def attach_family(ctx, r, case):
+    """Effects attached at different times to RELATED dataset objects: bases made from one configured decorator,
+    derivatives (with_options / with_default_options, derivatives of derivatives), late add_effect / add_effects.
+
+    Model: every object has its own multiset of attached effects; a derivative starts with a copy of its source's
+    multiset at derivation time.  For every evaluation of X that executed its body `runs` times (0 on a hit of the
+    shared cache): each effect fires >= attached[X] * runs times, and at most that plus the attachments made to an
+    object X was derived from AFTER the derivation (whether those propagate is not promised either way).  Effects
+    attached only to derivatives or siblings of X must not fire for X's body executions."""
+    from labrea import Option, dataset
+    from labrea.cache import MemoryCache, NoCache
+
+    calls, runs = [], [0, 0]
+    script = []
+
+    def mk_body(i):
+        def body(a=Option("A", 0), b=Option("S.X", "sx")):
+            runs[i] += 1
+            return ("v", i, a, b)
+
+        body.__name__ = f"attach_body{i}"
+        return body
+
+    def mk(name):
+        def eff(value):
+            calls.append(name)
+
+        eff.__name__ = name
+        return eff
+
+    names = ["e0", "e1", "e2", "e3"]
+    effs = {n: mk(n) for n in names}
+    ctor = r.sample(names, r.choice([0, 1, 1, 2]))
+    nocache = r.random() < 0.5
+    kw = {"effects": [effs[n] for n in ctor]}
+    deco = dataset(cache=NoCache() if nocache else MemoryCache, **kw) if ctor or r.random() < 0.5 else (dataset.nocache if nocache else dataset)
+    script.append(["decorator", ctor, "nocache" if nocache else "memory"])
+    objs, attached, parent, late_anc, body_of = [], [], [], [], []
+    n_bases = r.choice([1, 1, 2])
+    for i in range(n_bases):
+        form = r.choice(["call", "wrap"]) if hasattr(deco, "wrap") else "call"
+        objs.append(deco(mk_body(i)) if form == "call" else deco.wrap(mk_body(i)))
+        attached.append(list(ctor)); parent.append(None); late_anc.append([]); body_of.append(i)
+        script.append(["base", i, form])
+    pool = [{}, {"A": 1}, {"A": 2}, {"S": {"X": 1}}, {"A": 1, "S": {"X": 1, "Y": 2}}, {"N1": 0}]
+    W = {"case": case, "shard": ctx.shard, "shards": ctx.shards, "script": script}
+    for _ in range(r.choice([6, 9, 12])):
+        act = r.choice(["derive", "attach", "eval", "eval"])
+        x = r.randrange(len(objs))
+        if act == "derive" and len(objs) < 6:
+            kind, opts = r.choice(["with_options", "with_default_options"]), r.choice([{"A": 7}, {"S": {"X": "p"}}, {"B": 1}, {}])
+            objs.append(getattr(objs[x], kind)(copy.deepcopy(opts)))
+            attached.append(list(attached[x])); parent.append(x); late_anc.append([]); body_of.append(body_of[x])
+            script.append(["derive", x, kind, opts])
+        elif act == "attach":
+            ns = r.sample(names, r.choice([1, 1, 2]))
+            api = r.choice(["add_effects", "add_effect"])
+            if api == "add_effects":
+                objs[x].add_effects(*[effs[n] for n in ns])
+            else:
+                for n in ns:
+                    objs[x].add_effect(effs[n])
+            attached[x] += ns
+            # every existing descendant of x may or may not see the late attachment
+            for y in range(len(objs)):
+                a = parent[y]
+                while a is not None:
+                    if a == x:
+                        late_anc[y] += ns
+                        break
+                    a = parent[a]
+            script.append(["attach", x, ns, api])
+        else:
+            o = copy.deepcopy(r.choice(pool))
+            del calls[:]
+            before = list(runs)
+            out = observe(objs[x].evaluate, o)
+            ctx.evaluations += 1
+            script.append(["eval", x, o])
+            if out[0] != "ok":
+                ctx.violation("attach-family-evaluation-failed", f"evaluation failed: {short(out)}", W)
+                return
+            k = runs[body_of[x]] - before[body_of[x]]
+            ctx.count("attach_family_evaluations")
+            if k:
+                ctx.count("attach_family_body_runs")
+            if any(len(set(attached[y])) < len(attached[y]) for y in range(len(objs))):
+                ctx.count("attach_family_same_effect_attached_twice")
+            for n in names:
+                lo = attached[x].count(n) * k
+                hi = lo + late_anc[x].count(n) * k
+                got = calls.count(n)
+                if not lo <= got <= hi:
+                    ctx.violation("effect-calls-vs-attachments", f"object {x} executed its body {k} time(s); effect {n} is attached to it {attached[x].count(n)} time(s) "
+                                  f"but was called {got} time(s) (attachments per object: {attached})", W)
+                    return
+            if len(objs) > 1 and k:
+                ctx.nontrivial(spec_hash(script))
+
+
 def run(ctx):
     rng = ctx.rng
+    for i in range(ctx.n(600, 12000)):
+        attach_family(ctx, case_rng(ctx, ("attach", i)), i)
     dicts = [d for d in directed.dictionaries() if not any(k.startswith("LABREA") for k in d)]
     for i, p in enumerate(directed.programs()):
         if i % ctx.shards != ctx.shard or not p["datasets"]:
@@ -256,4 +359,8 @@ def run(ctx):
 
 def replay(ctx, rep):
     w = rep["witness"]
+    if "script" in w:
+        ctx.shard, ctx.shards = w.get("shard", 0), w.get("shards", 1)
+        attach_family(ctx, case_rng(ctx, ("attach", w["case"])), w["case"])
+        return
     run_history(ctx, w["program"], w["history"], tag="replay")
